@@ -1,4 +1,87 @@
-(* C01, rANS / FSE / LZ half: property theorems (strict form). *)
+(* C01, rANS / FSE / LZ half: property theorems.  Nothing but statements closed by `exact`, a pin, and
+   Print Assumptions. *)
 From ZV.Common Require Import Base.
-From ZV.C01 Require Import ModelLz ModelRans ModelFse.
+From ZV.C01 Require Import ModelLz ModelRans ModelFse ProofsRans ProofsLz.
 Open Scope N_scope.
+
+(* one rANS step: for a state in [L, 256 L) and a symbol with a slot, the encoder's new state is again in
+   [L, 256 L), the decoder's step on it returns the symbol and the renormalised state x1, and the decoder's
+   refill from x1 restores the state and byte stream the encoder started from *)
+Theorem rans_step_inverse :
+  forall t st s st', wf_table t -> state_ok (fst st) -> enc_symbol t st s = Some st' ->
+  0 < freq_of t s /\ state_ok (fst st') /\
+  exists x1, dec_symbol t st' = Some (s, (x1, snd st')) /\ dec_renorm x1 (snd st') = Some st.
+Proof. exact enc_symbol_step. Qed.
+Check rans_step_inverse :
+  forall t st s st', wf_table t -> state_ok (fst st) -> enc_symbol t st s = Some st' ->
+  0 < freq_of t s /\ state_ok (fst st') /\
+  exists x1, dec_symbol t st' = Some (s, (x1, snd st')) /\ dec_renorm x1 (snd st') = Some st.
+Print Assumptions rans_step_inverse.
+
+(* every state the encoder reaches lies in [2^16, 2^24): the u64 arithmetic of encode_symbol never wraps,
+   and only covered payloads are encoded *)
+Theorem rans_no_overflow :
+  forall t d st, wf_table t -> enc_all t d = Some st ->
+  (RANS_L <= fst st /\ fst st < STATE_BOUND) /\ covers t d.
+Proof. exact rans_no_overflow_proof. Qed.
+Check rans_no_overflow :
+  forall t d st, wf_table t -> enc_all t d = Some st ->
+  (RANS_L <= fst st /\ fst st < STATE_BOUND) /\ covers t d.
+Print Assumptions rans_no_overflow.
+
+(* Rans64Encoder<ParallelX1> / Rans64Decoder<ParallelX1>: whenever encoding succeeds, decoding with the
+   original length returns the payload - every table with sum <= TOTFREQ, every payload (the decoder refuses
+   lengths above MAX_DECOMPRESSED_SIZE) *)
+Theorem rans_roundtrip :
+  forall t d bytes, wf_table t -> N.of_nat (length d) <= MAX_DECOMPRESSED_SIZE ->
+  encode 1 t d = Some bytes -> decode 1 t bytes (length d) = Some d.
+Proof. exact rans_roundtrip_x1_proof. Qed.
+Check rans_roundtrip :
+  forall t d bytes, wf_table t -> N.of_nat (length d) <= MAX_DECOMPRESSED_SIZE ->
+  encode 1 t d = Some bytes -> decode 1 t bytes (length d) = Some d.
+Print Assumptions rans_roundtrip.
+
+(* a symbol without a slot is refused, never substituted; covered payloads are always encoded *)
+Theorem rans_encode_refuses :
+  forall t d, ~ covers t d -> enc_all t d = None.
+Proof. exact enc_all_refuses. Qed.
+Check rans_encode_refuses :
+  forall t d, ~ covers t d -> enc_all t d = None.
+Print Assumptions rans_encode_refuses.
+
+Theorem rans_encode_defined :
+  forall t d, wf_table t -> covers t d -> exists st, enc_all t d = Some st.
+Proof. exact enc_all_defined. Qed.
+Check rans_encode_defined :
+  forall t d, wf_table t -> covers t d -> exists st, enc_all t d = Some st.
+Print Assumptions rans_encode_defined.
+
+(* LZ token stream: every valid parse of a payload (literals and true, possibly overlapping, back-references)
+   decodes to the payload *)
+Theorem lz_parse_decodes :
+  forall toks d, parses [] toks d -> decompress (emit toks) = Some d.
+Proof. exact parses_decompress. Qed.
+Check lz_parse_decodes :
+  forall toks d, parses [] toks d -> decompress (emit toks) = Some d.
+Print Assumptions lz_parse_decodes.
+
+(* whatever the match chooser (hash chains, suffix arrays, heuristics): if it only proposes true matches, the
+   greedy loop round-trips *)
+Theorem lz_sound_chooser_roundtrip :
+  forall ch data, sound ch data -> nlen data <= MAX_DECOMPRESSED_SIZE ->
+  decompress (compress_with ch data) = Some data.
+Proof. exact compress_with_roundtrip. Qed.
+Check lz_sound_chooser_roundtrip :
+  forall ch data, sound ch data -> nlen data <= MAX_DECOMPRESSED_SIZE ->
+  decompress (compress_with ch data) = Some data.
+Print Assumptions lz_sound_chooser_roundtrip.
+
+(* DictionaryCompressor: decompress (compress d) = d for every payload and every (min, max) setting *)
+Theorem lz_decode_encode :
+  forall minl maxl data, maxl < W32 -> nlen data <= MAX_DECOMPRESSED_SIZE ->
+  decompress (compress minl maxl data) = Some data.
+Proof. exact lz_decode_encode_proof. Qed.
+Check lz_decode_encode :
+  forall minl maxl data, maxl < W32 -> nlen data <= MAX_DECOMPRESSED_SIZE ->
+  decompress (compress minl maxl data) = Some data.
+Print Assumptions lz_decode_encode.
